@@ -145,8 +145,20 @@ def j_harmonic(rec):
     if e: return BAD, e
     R = [1 / F(x) for x in xs]
     m = sum(R) / n
-    if m == 0 or got == 0 or not math.isfinite(got):
+    if m == 0:
         return SKIP, "mean of reciprocals is zero"
+    if got == 0 or not math.isfinite(got):
+        # an infinite answer is the reciprocal of a computed mean of reciprocals of exactly zero: judged on the
+        # reciprocal scale like any other answer (cancelling signs make that legitimate)
+        tol0 = SAFETY * (gamma(n + 2, u) * sum(abs(r) for r in R) / n + 2 * u * abs(m))
+        if math.isinf(got) and abs(m) <= tol0:
+            return OK, float(abs(m) / tol0)
+        # otherwise a zero / non-finite answer is only acceptable when the exact value, or the sum of reciprocals on
+        # the way to it, leaves the exponent range of the element type
+        h = abs(1 / m)
+        if sum(abs(r) for r in R) <= FMAX[ty] / 4 and FMIN_NORMAL[ty] * 4 <= h <= FMAX[ty] / 4:
+            return BAD, "harmonic_mean = %r although the exact value %.6e and the sum of reciprocals are well inside the exponent range" % (got, float(1 / m))
+        return SKIP, "result or sum of reciprocals outside the exponent range"
     tol = SAFETY * (gamma(n + 2, u) * sum(abs(r) for r in R) / n + 2 * u * abs(m))
     err = abs(1 / F(got) - m)
     ratio = float(err / tol)
@@ -323,6 +335,10 @@ def j_skew_kurt(rec, which):
         return SKIP, "overflow range"
     if m2 <= 4 * t2:
         return SKIP, "second moment indistinguishable from zero"
+    if m2 * m2 < FMIN_NORMAL[ty] * 2 ** 48:
+        # the fourth moment (and the square / 3/2 power of the second) fall into or below the subnormal range of the
+        # element type: the counterpart of the overflow guard above, outside the u-relative error model
+        return SKIP, "underflow range"
     got, e = need_val(rec)
     if e: return BAD, e
     p = 3 if which == "skewness" else 4
